@@ -161,7 +161,9 @@ pub mod xdr {
 
             // Try and decode n instances of T.
             let mut sum = 0;
-            let mut out = Vec::with_capacity(n);
+            // The count comes from the wire: never reserve more elements than
+            // there are bytes left to decode them from.
+            let mut out = Vec::with_capacity(n.min(self.remaining()));
             for _ in 0..n {
                 let t = T::try_from(self.clone())?;
                 if self.remaining() < t.wire_size() {
